@@ -12,7 +12,7 @@ import (
 )
 
 // Image content classes.
-var contentNames = []string{"noise", "extremes", "ramp", "const", "sparse", "checker"}
+var contentNames = []string{"noise", "extremes", "ramp", "const", "sparse", "checker", "flat-end"}
 
 // GenSamples produces w*h*comps samples in [lo,hi] (inclusive) by content class.
 func GenSamples(r *Rand, n, comps int, lo, hi int, class int) []int {
@@ -48,6 +48,14 @@ func GenSamples(r *Rand, n, comps int, lo, hi int, class int) []int {
 			if r.Intn(17) == 0 {
 				out[i] = lo + r.Intn(span)
 			}
+		}
+	case 6: // flat at one end of the range (class used by C12)
+		v := lo
+		if r.Bool() {
+			v = hi
+		}
+		for i := range out {
+			out[i] = v
 		}
 	default: // checkerboard of two values
 		a, b := lo+r.Intn(span), lo+r.Intn(span)
